@@ -1,9 +1,13 @@
 import RP.Lemmas.C01.Abs
-/-! C01 table, flush rows (all rank sets of 5-7 ranks), deck `short` -/
+/-! C01 table, flush rows (all rank sets of 5-7 ranks), deck `short`; native evaluation
+    (`Lean.ofReduceBool`, as `native_decide`) -/
 namespace RP.C01
 open RP.Eval
+set_option linter.deprecated false
 
-theorem tabF_short : forallF (rowF .short) = true := by
-  native_decide
+def tabF_short_native_decide : Bool := forallF (rowF .short)
+
+theorem tabF_short : forallF (rowF .short) = true :=
+  Lean.ofReduceBool tabF_short_native_decide true rfl
 
 end RP.C01
